@@ -70,6 +70,15 @@ class Staged:
         return 'Staged(%s)' % ', '.join('%s*%s%s' % (c, k, list(w)) for k, (c, w) in sorted(self.leaves.items(), key=str))
 
 
+def single_leaf(v):
+    """(leaf, word) of a staged value that is exactly one leaf with coefficient 1, else None"""
+    if isinstance(v, Staged) and len(v.leaves) == 1:
+        (k, (c, w)), = v.leaves.items()
+        if c == 1 and isinstance(k, tuple) and len(k) == 2 and k[0] == 'sswu':
+            return k, w
+    return None
+
+
 class A0:
     """Functions that are only valid on the target curve (a = 0, b = the curve's b)."""
 
@@ -180,12 +189,32 @@ def analyse_map(fx, fn_path, group_ty, n_params, a0, rep, label):
                 key = ('inputs-equal', min(a[1], b[1]), max(a[1], b[1]))
                 fr.storev(t['dest'], exp.Int(1 if name == 'eq' else 0, 1) if a[1] == b[1] else ('bool', key if name == 'eq' else ('not', key)))
                 return True
+            # two map intermediates compared as points (the projective PartialEq is the representation-independent
+            # equal-point test, C01): a predicate the path forks on
+            if isinstance(a, Staged) and isinstance(b, Staged) and single_leaf(a) is not None and single_leaf(b) is not None and single_leaf(a)[1] == single_leaf(b)[1]:
+                la, lb = single_leaf(a)[0], single_leaf(b)[0]
+                if la == lb:
+                    fr.storev(t['dest'], exp.Int(1 if name == 'eq' else 0, 1))
+                    return True
+                key = ('points-equal',) + tuple(sorted([la, lb], key=repr))
+                fr.storev(t['dest'], ('bool', key if name == 'eq' else ('not', key)))
+                return True
         if not staged_idx:
             return False
         # any other call touching a staged value
         target = resolve(c)
         wit = a0.witness(target)
-        if wit is not None:
+        waived = False
+        if wit is not None and trait == 'CurveProjective' and name in ('add_assign', 'sub_assign') and len(argvals) == 2 and all(isinstance(v, Staged) for v in argvals):
+            # the chord formula does not involve the curve coefficients: on E' the addition is the group law of E' as long
+            # as its doubling branch is not taken, i.e. on a path that has established that the operands are different
+            # points (and the equal-point test of add_assign is that same predicate: C01's skeleton rule)
+            sa, sb = single_leaf(argvals[0]), single_leaf(argvals[1])
+            if sa is not None and sb is not None and sa[1] == sb[1] and sa[0] != sb[0] and name == 'add_assign':
+                key = ('points-equal',) + tuple(sorted([sa[0], sb[0]], key=repr))
+                if pth.decided(key) is False:
+                    waived = True
+        if wit is not None and not waived:
             for i in staged_idx:
                 if argvals[i].tag() in ("E'", 'MIXED'):
                     violations.append(('TS', 'a0-on-isogenous-curve',
